@@ -153,9 +153,8 @@ class Interp:
         if isinstance(v, PDict):
             return len(v.items) > 0
         if isinstance(v, SDict):
-            if v.n is not None:
-                return to_z3(v.n) > 0 if not isinstance(v.n, int) else v.n > 0
-            raise Unsupported("truth of a symbolic map without enumeration")
+            v.ensure_enum(self.path)
+            return to_z3(v.n) > 0 if not isinstance(v.n, int) else v.n > 0
         if isinstance(v, Arr):
             if v.ndim == 0:
                 return self.truth(mk(v.elem(), v.dtype))
@@ -437,6 +436,8 @@ class Interp:
             raise Unsupported(f"super().{name} not found")
         if isinstance(v, Obj):
             return self.getattr_obj(v, name, frame)
+        if hasattr(v, "guard"):
+            v.guard(self)
         key = None
         for k in type(v).__mro__:
             if (k, name) in METHODS:
@@ -820,6 +821,9 @@ class Interp:
                 return [models_np.index_first(self, it, i) for i in range(it.shape[0])]
             raise Unsupported(f"iteration over an array of symbolic length without invariant at {self.where()}")
         if isinstance(it, SDict):
+            it.ensure_enum(self.path)
+            if isinstance(it.n, int):
+                return [it.key_at(i) for i in range(it.n)]
             raise Unsupported(f"iteration over a symbolic map without invariant at {self.where()}")
         if isinstance(it, str):
             return list(it)
@@ -1176,6 +1180,9 @@ class Interp:
         return a is b
 
     def contains(self, cont, x):
+        cont = self.unwrap(cont)
+        if hasattr(cont, "guard"):
+            cont.guard(self)
         if isinstance(cont, PList):
             return self.or_all([self.eq(x, y) for y in cont.items])
         if isinstance(cont, (tuple, list, frozenset, set)):
@@ -1190,7 +1197,15 @@ class Interp:
         if isinstance(cont, dict):
             return self.contains(PDict(cont), x)
         if isinstance(cont, SDict):
+            if isinstance(x, DynV):
+                from . import models_py
+
+                x = models_py.coerce_key(self, x, cont.kkind, None)
+                if x is None:
+                    return False
             return cont.has(x)
+        if isinstance(cont, SList) and getattr(cont, "keys_of", None) is not None:
+            return self.contains(cont.keys_of, x)
         if isinstance(cont, SList):
             i = z3.Int(fresh_name("m"))
             ev = cont.elem(i)
@@ -1286,6 +1301,8 @@ class Interp:
         base = self.unwrap(base)
         if base is None:
             self.raise_(TypeError)
+        if hasattr(base, "guard"):
+            base.guard(self)
 
         if isinstance(base, Arr):
             return models_np.getitem(self, base, idx)
